@@ -12,6 +12,7 @@ pub mod c11;
 pub mod c12;
 pub mod c13;
 pub mod c14;
+pub mod c18;
 pub mod conc;
 pub mod crash;
 
@@ -33,6 +34,7 @@ pub fn dispatch(a: &Args) -> i32 {
         "C12" => c12::run(a),
         "C13" => c13::run(a),
         "C14" => c14::run(a),
+        "C18" => c18::run(a),
         "scenarios" => {
             // debug: run every directed scenario and print the outcome
             let mut code = 0;
@@ -74,6 +76,13 @@ fn replay(a: &Args, path: &str) -> i32 {
                     0
                 }
             }
+        }
+        Some("c18") => {
+            let code = c18::replay(&j);
+            if code == 1 {
+                println!("VIOLATION property={} replay={}", a.prop, path);
+            }
+            code
         }
         Some("c13") => {
             let code = c13::replay(&j);
